@@ -261,6 +261,25 @@ func childC15(raw json.RawMessage) {
 		w.Flush()
 		omu.Unlock()
 	}
+	if k.Mode == "end-during-open" {
+		// while the stream of the last vBucket is still being requested, the stream of vBucket First (already open) ends with
+		// a recoverable error: it has to be requested again although Open() has not returned yet
+		var once sync.Once
+		inner := d.Client.OnOpen
+		d.Client.OnOpen = func(vb uint16) {
+			inner(vb)
+			if vb == k.Last {
+				once.Do(func() {
+					for t0 := time.Now(); time.Since(t0) < 2*time.Second && d.Client.Observer(k.First) == nil; time.Sleep(time.Millisecond) {
+					}
+					if ob := d.Client.Observer(k.First); ob != nil {
+						ob.End(models.DcpStreamEnd{VbID: k.First}, gocbcore.ErrDCPStreamStateChanged)
+						time.Sleep(150 * time.Millisecond) // the reopen request arrives while this one is still pending
+					}
+				})
+			}
+		}
+	}
 	d.Disc.Set(k.First, k.Last)
 	d.setServer(&k.Sv)
 	d.Stream.Open()
@@ -269,6 +288,9 @@ func childC15(raw json.RawMessage) {
 	b, _ := json.Marshal(outs)
 	fmt.Fprintf(w, "STARTED %s\n", b)
 	w.Flush()
+	if k.Mode == "end-during-open" {
+		time.Sleep(400 * time.Millisecond)
+	}
 	if k.Mode == "reopen-fail" || k.Mode == "reopen-recover" {
 		vb := k.First
 		d.Client.OpenErr[vb] = errors.New("scripted reopen failure")
@@ -363,6 +385,7 @@ func runC15(c *Ctx) {
 		{Mode: "reopen-fail", Cfg: SCfg{Colls: map[uint32]string{}}, Initial: map[uint16]SDoc{}, First: 0, Last: 0, Sv: SServer{High: map[uint16]uint64{0: 5}, UUID: map[uint16]uint64{0: 7}}},
 		{Mode: "reopen-recover", Cfg: SCfg{Colls: map[uint32]string{}}, Initial: map[uint16]SDoc{}, First: 0, Last: 0, Sv: SServer{High: map[uint16]uint64{0: 5}, UUID: map[uint16]uint64{0: 7}}},
 		{Mode: "bad-metadata-type"},
+		{Mode: "end-during-open", Cfg: SCfg{Colls: map[uint32]string{}}, Initial: map[uint16]SDoc{}, First: 0, Last: 1, Sv: SServer{High: map[uint16]uint64{0: 5, 1: 5}, UUID: map[uint16]uint64{0: 7, 1: 8}}},
 	}
 	cases = append(cases, special...)
 
@@ -370,6 +393,7 @@ func runC15(c *Ctx) {
 		started  bool
 		survived bool
 		calls    int
+		calls0   int
 		outs     []SOut
 		exit     int
 		stderr   string
@@ -382,6 +406,9 @@ func runC15(c *Ctx) {
 			switch {
 			case strings.HasPrefix(l, "OPENCALL"):
 				x.calls++
+				if l == "OPENCALL 0" {
+					x.calls0++
+				}
 			case strings.HasPrefix(l, "STARTED"):
 				x.started = true
 				if len(l) > 8 {
@@ -405,6 +432,11 @@ func runC15(c *Ctx) {
 		case "bad-metadata-type":
 			if x.started || x.exit == 0 {
 				c.Violate("unknown-type-accepted", "a client with an unknown metadata type started instead of terminating", rep)
+			}
+			continue
+		case "end-during-open":
+			if !x.started || x.calls0 != 2 {
+				c.Violate("end-during-open-not-reopened", fmt.Sprintf("the stream of vBucket 0 ended with a recoverable error while Open() was still requesting vBucket 1: vBucket 0 was requested %d time(s), twice expected (started: %v)", x.calls0, x.started), rep)
 			}
 			continue
 		case "reopen-fail":
